@@ -348,8 +348,33 @@ def run(chk: common.Check) -> None:
                 await asyncio.gather(worker(), worker(), worker())
                 if sorted(got) != sorted(l):
                     ta_msgs.append(f'three consumers sharing one to_aiter(thread={thread}) over {l!r} received {sorted(got)!r}')
+    async def ta_cancel() -> None:
+        # a consumer that gives up one request (cancels it d loop steps after making it) and goes on iterating: without a thread the
+        # wrapper never suspends, so a request either has not taken an item yet or has delivered it — nothing may go missing
+        from nextline.utils.aio import to_aiter
+        for l in (list(range(8)), [None, 0, 'a'], [5]):
+            for pos in range(len(l) + 1):
+                for d in (0, 1, 2, 3):
+                    it = to_aiter(iter(l), thread=False)
+                    got: list = []
+                    for _ in range(pos):
+                        got.append(await it.__anext__())
+                    req = asyncio.ensure_future(it.__anext__())
+                    for _ in range(d):
+                        await asyncio.sleep(0)
+                    req.cancel()
+                    try:
+                        got.append(await req)
+                    except (asyncio.CancelledError, StopAsyncIteration):
+                        pass
+                    got += [x async for x in it]
+                    if len(got) != len(l) or any(a is not b and a != b for a, b in zip(got, l)):
+                        ta_msgs.append(f'to_aiter(thread=False) over {l!r}: request #{pos + 1} cancelled {d} loop step(s) after it was made, then '
+                                       f'iteration continued: received {got!r}')
     asyncio.new_event_loop().run_until_complete(ta_main())
     asyncio.new_event_loop().run_until_complete(ta_reuse())
+    asyncio.new_event_loop().run_until_complete(ta_cancel())
+    chk.cov.count('kinds', 'to_aiter-request-cancelled')
     model_out = None
     model_err = None
     all_lines = [ln for (_, lines, _, _) in rows for ln in lines] + [f"toaiter {','.join(map(str, l)) if l else '-'}" for l in ta]
